@@ -1,6 +1,7 @@
 import SamVerif.Drive.Common
 import SamVerif.Model.Dispatch
 import SamVerif.Spec.RedisFlags
+import SamVerif.Model.ScanWalk
 namespace SamVerif.Drive.C14
 open SamVerif SamVerif.Drive SamVerif.Dispatch
 
@@ -65,15 +66,24 @@ def handle (kind : String) (args : List String) (impl : String) : String :=
       let spS := if sp == "" then "" else s!"SPEC {sp} impl={impl}"
       if d == "" && spS == "" then "ok" else d ++ (if d != "" && spS != "" then " ; " else "") ++ spS
     | _, _, _ => "bad-op"
-  | "c14.scan", [_st, nmS, _nr] =>
-    -- SCAN walks over the masters of the routing table, in address order, under every strategy: together they hold every key once
+  | "c14.scan", _st :: nmS :: _nr :: rest =>
+    -- `Model.ScanWalk.scanAddrs`: SCAN walks over the masters the routing table lists, in address order, under every strategy
     match nmS.toNat? with
     | some nm =>
-      let m := s!"targets={",".intercalate ((List.range nm).map fun i => s!"M{i}")} keys={nm}"
-      let sp := if (impl.splitOn "R").length > 1 || (impl.splitOn "X").length > 1 then "SCAN-sent-to-a-node-that-is-not-a-master" else ""
-      let d := if impl == m then "" else s!"DIFF model={m} impl={impl}"
-      let ss := if sp == "" then "" else s!"SPEC {sp} impl={impl}"
-      if d == "" && ss == "" then "ok" else d ++ (if d != "" && ss != "" then " ; " else "") ++ ss
+      let table : Option (List (Option Nat)) := match rest with
+        | [] => some ((List.range nm).map some)
+        | [own] => if own.length == 8 then some (own.toList.map fun ch => if ch == '-' then none else some (ch.toNat - 48)) else none
+        | _ => none
+      match table with
+      | none => "bad-op"
+      | some tb =>
+        -- (with no slot known the fallback is the configured hosts, masters and replicas alike: not generated)
+        let walk := ScanWalk.scanAddrs tb []
+        let m := s!"targets={",".intercalate (walk.map fun i => s!"M{i}")} keys={walk.length}"
+        let sp := if (impl.splitOn "R").length > 1 || (impl.splitOn "X").length > 1 then "SCAN-sent-to-a-node-that-is-not-a-master" else ""
+        let d := if impl == m then "" else s!"DIFF model={m} impl={impl}"
+        let ss := if sp == "" then "" else s!"SPEC {sp} impl={impl}"
+        if d == "" && ss == "" then "ok" else d ++ (if d != "" && ss != "" then " ; " else "") ++ ss
     | none => "bad-op"
   | "c14.topo", [st, _a1, a2, _n] =>
     -- after the second refresh reads go to the replicas that follow the owner now (REPLICA; the master when it has none),
